@@ -69,7 +69,8 @@ func (f *FnVC) mapVal(st *State, m Term, mt *types.Map, k Term) Term {
 func (f *FnVC) mapLen(st *State, m Term, mt *types.Map) Term {
 	_, _, ln, _, _ := f.mapComps(mt)
 	l := f.comp(st, ln, arraySort(SRef, BV(64)))
-	return sel(l, m)
+	// a nil map has length 0 (as the code's own len() is encoded)
+	return ite(eq(m, Term{"0", SRef}), u64(0), sel(l, m))
 }
 
 func (f *FnVC) lookup(st *State, x *ssa.Lookup) {
